@@ -1,0 +1,155 @@
+//go:build verif
+
+// Contracts for package generator, read by /verif/engine (govc). Comment-only.
+// Decided here: the generator's bookkeeping (accessor indices, required members vs
+// constructor arguments, duplicate rejection, package naming). The text produced by
+// text/template and what the Go compiler makes of it are outside these contracts.
+package generator
+
+// Emission through text/template is an uninterpreted function of format and data.
+//@ func (g *Generator) mustExecuteTemplate(format string, data interface{}) (res string)
+//@   pure
+//@   trusted
+
+// argN / reqN: constructor arguments emitted / required members met so far
+//@ ghost argN int
+//@ ghost reqN int
+//@ ghost setN int
+
+// makeComponent: the accessor index handed to the getter/setter template is the
+// position of the member's constructor in the emitted field list (excluded framing
+// fields are skipped and do not count); a member contributes a constructor argument
+// and a setter call exactly when it is required.
+//@ func (g *Generator) makeComponent(component *Component, name string) (res string)
+//@   requires g != nil
+//@   modifies argN, reqN, setN
+//@   call makeCallConstructor#1:
+//@     set reqN = reqN + ite(member.Required == "Y", 1, 0)
+//@   call makeArg#1:
+//@     assert[C12] @requiredonly arg1 == member && member.Required == "Y"
+//@     set argN = argN + 1
+//@   call makeSetterCall#1:
+//@     assert[C12] @requiredonly arg1 == member && member.Required == "Y"
+//@     set setN = setN + 1
+//@   call makeSetterGetterField#1:
+//@     assert[C12] @position arg2 == member && arg3 == len(goFields) - 1 && arg1 == name
+//@   loop 1:
+//@     invariant[C12] @index counter == len(goFields) && len(goGetterSetters) == counter && counter >= 0
+//@     invariant[C12] @args len(goArgs) == len(goSettersCalls) && argN - old(argN) == reqN - old(reqN) && setN - old(setN) == reqN - old(reqN) && len(goArgs) == argN - old(argN)
+
+// The per-member emitters read the schema and return text; they change nothing.
+//@ func (g *Generator) isFieldExcluded(name string) (res bool)
+//@   pure
+//@ func (g *Generator) makeCallConstructor(member *ComponentMember) (res string)
+//@   requires g != nil
+//@   pure
+//@ func (g *Generator) makeArg(member *ComponentMember) (res string)
+//@   requires g != nil
+//@   pure
+//@ func (g *Generator) makeSetterCall(member *ComponentMember) (res string)
+//@   requires g != nil
+//@   pure
+//@ func (g *Generator) makeSetterGetterField(parentName string, member *ComponentMember, index int) (res string)
+//@   requires g != nil
+//@   pure
+
+// makeMessage / makeGroupConstructor: same bookkeeping without excluded members.
+//@ func (g *Generator) makeMessage(message *Component) (res string)
+//@   requires g != nil
+//@   modifies argN, reqN, setN
+//@   call makeCallConstructor#1:
+//@     set reqN = reqN + ite(member.Required == "Y", 1, 0)
+//@   call makeArg#1:
+//@     assert[C12] @requiredonly arg1 == member && member.Required == "Y"
+//@     set argN = argN + 1
+//@   call makeSetterCall#1:
+//@     assert[C12] @requiredonly arg1 == member && member.Required == "Y"
+//@     set setN = setN + 1
+//@   call makeSetterGetterField#1:
+//@     assert[C12] @position arg2 == member && arg3 == len(goFields) - 1 && arg1 == message.Name
+//@   loop 1:
+//@     invariant[C12] @index iter == len(goFields) && len(goGetterSetters) == iter
+//@     invariant[C12] @args len(goArgs) == len(goSettersCalls) && argN - old(argN) == reqN - old(reqN) && setN - old(setN) == reqN - old(reqN) && len(goArgs) == argN - old(argN)
+
+//@ func (g *Generator) makeGroupEntryTypeName(name string) (res string)
+//@   pure
+//@ func (g *Generator) makeGroupConstructor(group *ComponentMember) (res string)
+//@   requires g != nil
+//@   pure
+//@   call makeSetterGetterField#1:
+//@     assert[C12] @position arg2 == member && arg3 == len(goFields) - 1
+//@   loop 1:
+//@     invariant[C12] @index iter == len(goFields) && len(goGetterSetters) == iter
+
+// prepare accepts a schema only if no two fields share a number and no two messages
+// share a message type.
+//@ func (g *Generator) initTypes()
+//@   requires g != nil && g.config != nil
+//@   modifies g.typeCast, MAP
+//@ func (g *Generator) appendGroup(group *ComponentMember)
+//@   requires g != nil
+//@   modifies MAP
+//@   forall m map[string]struct{}
+//@   forall k string
+//@   ensures[C12] @others imp(m != g.groups, mhas(m, k) == old(mhas(m, k)))
+//@ func (g *Generator) grabGroups(component *ComponentMember)
+//@   requires g != nil
+//@   modifies MAP
+//@   forall m map[string]struct{}
+//@   forall k string
+//@   ensures[C12] @others imp(m != g.groups, mhas(m, k) == old(mhas(m, k)))
+//@   loop 1:
+//@     invariant[C12] imp(m != g.groups, mhas(m, k) == old(mhas(m, k)))
+//@ func (g *Generator) prepare() (err error)
+//@   requires g != nil && g.doc != nil && g.config != nil && g.doc.Header != nil && g.doc.Trailer != nil
+//@   modifies g.typeCast, g.fields, g.enums, g.components, MAP
+//@   forall a int
+//@   forall b int
+//@   ensures[C12] @distinctnumbers imp(err == nil && 0 <= a && a < b && b < len(g.doc.Fields), nth(g.doc.Fields, a).Number != nth(g.doc.Fields, b).Number)
+//@   ensures[C12] @distinctmsgtypes imp(err == nil && 0 <= a && a < b && b < len(g.doc.Messages), nth(g.doc.Messages, a).MsgType != nth(g.doc.Messages, b).MsgType)
+//@   loop 1:
+//@     invariant[C12] @seen imp(0 <= a && a < iter, mhas(numbers, nth(g.doc.Fields, a).Number))
+//@     invariant[C12] @distinct imp(0 <= a && a < b && b < iter, nth(g.doc.Fields, a).Number != nth(g.doc.Fields, b).Number)
+//@   call grabGroups#1:
+//@     inst m = msgTypes, k = nth(g.doc.Messages, a).MsgType
+//@   loop 4:
+//@     invariant[C12] @kept imp(0 <= a && a <= iter2, mhas(msgTypes, nth(g.doc.Messages, a).MsgType))
+//@   loop 3:
+//@     invariant[C12] @seen imp(0 <= a && a < iter, mhas(msgTypes, nth(g.doc.Messages, a).MsgType))
+//@     invariant[C12] @distinct imp(0 <= a && a < b && b < iter, nth(g.doc.Messages, a).MsgType != nth(g.doc.Messages, b).MsgType)
+
+// Package naming: the package clause of every emitted file is the last element of the
+// cleaned output directory (dashes replaced), wherever that directory is.
+//@ spec pathClean(p string) string
+//@ spec pathBase(p string) string
+//@ spec strReplaceAll(s string, from string, to string) string
+//@ extern path/filepath.Clean(path string) (res string)
+//@   pure
+//@   ensures res == pathClean(path)
+//@ extern path/filepath.Base(path string) (res string)
+//@   pure
+//@   ensures res == pathBase(path)
+//@ extern strings.ReplaceAll(s string, from string, to string) (res string)
+//@   pure
+//@   ensures res == strReplaceAll(s, from, to)
+//@ func (g *Generator) checkName(name string) (err error)
+//@   pure
+//@ func (g *Generator) Execute(outputDirPath string) (err error)
+//@   requires g != nil && g.doc != nil && g.config != nil && g.doc.Header != nil && g.doc.Trailer != nil
+//@   call checkName#1:
+//@     witness pkgname = arg1
+//@     assert[C12] @packagename arg1 == strReplaceAll(pathBase(pathClean(outputDirPath)), "-", "_")
+//@   call makeFile#1:
+//@     assert[C12] @samepackage arg2 == pkgname
+//@   call makeFile#2:
+//@     assert[C12] @samepackage arg2 == pkgname
+//@   call makeFile#3:
+//@     assert[C12] @samepackage arg2 == pkgname
+//@   call makeFile#4:
+//@     assert[C12] @samepackage arg2 == pkgname
+//@   call makeFile#5:
+//@     assert[C12] @samepackage arg2 == pkgname
+//@   call makeFile#6:
+//@     assert[C12] @samepackage arg2 == pkgname
+//@   call makeFile#7:
+//@     assert[C12] @samepackage arg2 == pkgname
